@@ -107,10 +107,10 @@ Definition follows_section (tree : tree) (scope : nat) : bool :=
 (* which classes can explain the failure of which sub-property *)
 Definition explain_C10 (p : N) : list N :=
   match p with
-  | 2%N => [3; 4; 5]%N
+  | 2%N => [3; 4]%N
   | 3%N => [2%N]
-  | 4%N => [2; 3; 5]%N
-  | 5%N => [2; 3; 4; 5; 6]%N
+  | 4%N => [2; 3]%N
+  | 5%N => [2; 3; 4; 6]%N
   | _ => []
   end.
 
@@ -147,7 +147,7 @@ Definition model_scope (g : graph) (s : step) : option (tree * nat * tree) :=
    2 the note has front matter
    3 the converted block is adjacent to a list of the resulting type
    4 the conversion writes a heading deeper than 6
-   5 the conversion writes a tight item holding a rule or table, or two quotes in a row
+   (5 - a tight item holding a rule or table, or two quotes in a row - is repaired in the writer, F-TIGHTTAIL)
    6 section -> list on a section that follows a sibling section *)
 Definition eval_act (c : actcase) (g : graph) (a : act_obs) : list N * list N :=
   let lc := ac_lib c in
@@ -163,7 +163,6 @@ Definition eval_act (c : actcase) (g : graph) (a : act_obs) : list N * list N :=
         flag 2 (match ni_meta ni with Some _ => false | None => true end) ++
         flag 3 (negb match scope with Some (_, _, t') => adjacent_lists (project (key_parent key) t') | None => false end) ++
         flag 4 (negb match scope with Some (_, _, t') => Nat.ltb 6 (max_levels (project (key_parent key) t')) | None => false end) ++
-        flag 5 (match scope with Some (_, _, t') => forallb g_calm (project (key_parent key) t') | None => true end) ++
         flag 6 (negb match scope with Some (t, sc, _) => Nat.eqb (st_kind s) 5 && follows_section t sc | None => false end) in
       let p1 := match single_update key l with Some _ => true | None => false end in
       let after := after_doc s key in
